@@ -42,11 +42,15 @@ INVS = ["ConcLimit", "IsoHistory", "NoStarvation", "Finished", "PermitsSane", "N
 P, X = ["pt", "t", "c"], ["xe", "e", "c"]
 # pr / xr: a header-less stream call rejected by init; its session's first t / e / c is a stray input stream, then a further call
 W2_STRAY = [[["pr", "t", "u"], ["u"]], [["xr", "c", "u"], ["u", "u"]], [["pr", "t", "u"], []], [["xr", "e", "u"], ["pr", "c", "u"]]]
-W2_QUICK = [[P, P], [X, X], [P, X], [["u"], ["u", "u"]], [["u", "pt", "c"], ["xe", "c"]], [[], ["u"]]] + W2_STRAY
+W2_BASE = [[P, P], [X, X], [P, X], [["u"], ["u", "u"]], [["u", "pt", "c"], ["xe", "c"]], [[], ["u"]]]
+W2_QUICK = [[P, X], [["u"], ["u", "u"]], [[], ["u"]]] + W2_STRAY[:3]
 W3_QUICK = [[["u"], ["u"], []]]
 # g: the connection ends abnormally (RpcServer.serve raises out of the per-connection thread)
 W2_ABEND = [[["g"], ["u"]], [["u", "g"], ["pt", "c"]]]
-W2_MORE = [[["pr", "c", "pt", "c"], ["xe", "c", "u"]], [["u", "u"], P], [["pt", "t", "t", "c"], ["xe", "e", "e", "c"]], [["u", "xe", "c", "u"], ["pt", "c", "u"]], [[], []],
+# connections whose client brings its own shared-memory segment (sh = both / only the first)
+W2_SHM = [[["u"], ["u"]], [P, X]]
+W2_SHM1 = [[["u", "u"], ["pt", "t", "c"]]]
+W2_MORE = [[P, P], [X, X], [["u", "pt", "c"], ["xe", "c"]], W2_STRAY[3], [["pr", "c", "pt", "c"], ["xe", "c", "u"]], [["u", "u"], P], [["pt", "t", "t", "c"], ["xe", "e", "e", "c"]], [["u", "xe", "c", "u"], ["pt", "c", "u"]], [[], []],
            [["pt", "c", "pt", "c"], ["pt", "t", "c"]]]
 W3_MORE = [[["u"], ["u"], ["u"]], [[], ["pt", "c"], ["u"]], [["pt", "c"], ["pt", "c"], ["xe", "c"]]]
 
@@ -55,12 +59,13 @@ def _tla_seq(xs) -> str:
     return "<<" + ", ".join(f'"{x}"' for x in xs) + ">>"
 
 
-def _worlds(ws: list, mxs: list) -> str:
+def _worlds(ws: list, mxs: list, sh=()) -> str:
     recs = []
-    for scripts, in [(w,) for w in ws]:
+    for scripts in ws:
         f = "<<" + ", ".join(_tla_seq(s) for s in scripts) + ">>"
+        shs = "{" + ", ".join(str(c) for c in sh if c <= len(scripts)) + "}"
         for m in mxs:
-            recs.append(f"[s |-> {f}, mx |-> {m}]")
+            recs.append(f"[s |-> {f}, mx |-> {m}, sh |-> {shs}]")
     return "{" + ", ".join(recs) + "}"
 
 
@@ -117,8 +122,8 @@ def run(ctx: Ctx) -> None:
     for m in ("ConnIso", "ConnIsoTrace", "ConnIsoMonitor"):
         sany(wd, m)
     # ---- (1) the design
-    for name, world in (("stream_state", [P, P]), ("stray_mark", W2_STRAY[0])):
-        kw = _wrapper(wd, f"MC_ConnShared_{name}", "ConnIso", _worlds([world], [0]))
+    for name, world in (("stream_state", [P, P]), ("stray_mark", W2_STRAY[0]), ("segment_cache", [["u"], ["u"]])):
+        kw = _wrapper(wd, f"MC_ConnShared_{name}", "ConnIso", _worlds([world], [0], (1, 2) if name == "segment_cache" else ()))
         bad = run_tlc(wd, f"MC_ConnShared_{name}", render_cfg(constants={"SharedState": True}, invariants=INVS, **kw), workers=4)
         ctx.extra[f"design_with_shared_{name}_violates"] = bad.violated
         ctx.extra[f"design_with_shared_{name}_counterexample"] = [a for a, _ in bad.counterexample]
@@ -126,13 +131,15 @@ def run(ctx: Ctx) -> None:
             raise MachineryError(f"the shared-{name} design should violate IsoHistory, TLC says {bad.violated} {bad.error}")
     if not ctx.quick:
         kw = _wrapper(wd, "MC_ConnBig", "ConnIso", "(" + _worlds(W2_QUICK + W2_ABEND + W2_MORE, [0, 1, 2]) + " \\cup "
-                      + _worlds(W3_QUICK + W3_MORE, [0, 1, 2]) + ")")
+                      + _worlds(W3_QUICK + W3_MORE, [0, 1, 2]) + " \\cup " + _worlds(W2_SHM + W2_SHM1, [0, 1, 2], (1, 2))
+                      + " \\cup " + _worlds(W2_SHM + W2_SHM1, [0, 2], (1,)) + ")")
         r = run_tlc(wd, "MC_ConnBig", render_cfg(constants={"SharedState": False}, invariants=INVS, **kw), workers=8, timeout=1500)
         ctx.add_tlc(f"ConnIso exhaustive: {len(W2_QUICK + W2_ABEND + W2_MORE)} two-connection and {len(W3_QUICK + W3_MORE)} three-connection script sets x max_connections {{None,1,2}}", r)
         require_ok(r, "ConnIso.tla (intended design) must satisfy the C41 clauses")
-    gw2 = W2_QUICK + W2_ABEND if ctx.quick else W2_QUICK + W2_ABEND + W2_MORE[:3]
+    gw2 = W2_QUICK + W2_ABEND if ctx.quick else W2_QUICK + W2_ABEND + W2_MORE[:6]
     gw3 = W3_QUICK if ctx.quick else W3_QUICK + W3_MORE[:2]
-    kw = _wrapper(wd, "G_Conn", "ConnIso", "(" + _worlds(gw2, [0, 1, 2]) + " \\cup " + _worlds(gw3, [1, 2]) + ")")
+    kw = _wrapper(wd, "G_Conn", "ConnIso", "(" + _worlds(gw2, [0, 1, 2]) + " \\cup " + _worlds(gw3, [1, 2]) + " \\cup "
+                  + _worlds(W2_SHM, [0, 2], (1, 2)) + " \\cup " + _worlds(W2_SHM1, [0, 1], (1,)) + ")")
     gr, g = dump_graph(wd, "G_Conn", render_cfg(constants={"SharedState": False}, invariants=INVS, **kw), name="gconn",
                        workers=8, timeout=1500)
     ctx.add_tlc(f"ConnIso exhaustive + state graph: {len(gw2)} two-connection x {{None,1,2}}, {len(gw3)} three-connection x {{1,2}}", gr)
@@ -153,7 +160,7 @@ def run(ctx: Ctx) -> None:
             move = (lab, s["loop"], d["loop"])
             others = tuple(sorted(zip(_items(s["cl"]), _items(s["h"]))))
         # + the stray marks: "another connection's thread moves between A's rejection and A's stray input" is its own class
-        return (move, others, s["mx"], len(s["serving"]), len(s["backlog"]), _items(s["flag"]), _items(s["mid"]))
+        return (move, others, s["mx"], tuple(sorted(s["sh"])), len(s["serving"]), len(s["backlog"]), _items(s["flag"]), _items(s["mid"]))
 
     def key_stray(s, lab, d):
         # steps of ANOTHER connection's threads while some connection's stray mark is set (= between a rejection and
@@ -162,11 +169,34 @@ def run(ctx: Ctx) -> None:
         marked = [c for c, v in (fl if fl and isinstance(fl[0], tuple) else enumerate(fl)) if v and c > 0]
         if marked and lab.startswith(("C(", "H(")) and int(lab[2:-1]) not in marked:
             return key(s, lab, d)
+        # ... and a handler that takes up a request while another connection that brought a segment is inside a method
+        shs = set(s["sh"])
+        if lab.startswith("H(") and any(_at(s["h"], o) == "m" for o in shs if o != int(lab[2:-1])) \
+                and _at(d["h"], int(lab[2:-1])) == "m":
+            return key(s, lab, d)
         return "rest"
 
-    paths = g.edge_cover_paths(ctx.rng, max_paths=80 if ctx.quick else 400, key=key_stray, max_len=200)
+    # the cover is built world by world (one initial state = one script set x max_connections x own-segment set), so a
+    # limited budget is spread over all of them instead of being spent on the first ones in graph order
+    inits = list(g.init)
+    total = 170 if ctx.quick else 1500
+
+    def special(n):
+        s0 = g.state(n)
+        return bool(s0["sh"]) or any(op in ("pr", "xr") for sc in _items(s0["script"]) for op in sc)
+
+    paths = []
+    sp = [n for n in inits if special(n)]
+    for n in sp:
+        g.init = [n]
+        paths += g.edge_cover_paths(ctx.rng, max_paths=max(2, (total // 3) // max(1, len(sp))), key=key_stray, max_len=200)
     ctx.extra["schedules_covering_steps_inside_a_stray_window"] = len(paths)
-    paths += g.edge_cover_paths(ctx.rng, max_paths=(220 if ctx.quick else 1500) - len(paths), key=key, max_len=200)
+    per = max(2, (total - len(paths)) // len(inits))
+    for n in inits:
+        g.init = [n]
+        paths += g.edge_cover_paths(ctx.rng, max_paths=per, key=key, max_len=200)
+    g.init = inits
+    ctx.extra["worlds"] = len(inits)
     ctx.extra["schedules_from_edge_cover"] = len(paths)
     ctx.extra["edge_classes"] = len({key(g.state(u), lab, g.state(v)) for u, es in g.out.items() for lab, v in es})
     if not ctx.quick:
@@ -182,17 +212,18 @@ def run(ctx: Ctx) -> None:
         scripts = {c: list(v) for c, v in sorted(s0["script"].items())} if isinstance(s0["script"], dict) \
             else {i + 1: list(v) for i, v in enumerate(s0["script"])}
         mx = s0["mx"]
+        sh = sorted(s0["sh"])
         steps = _steps(g.path_to_behaviour(nodes, labs), g, nodes)
-        sk = json.dumps([scripts, mx, [list(s[:2]) for s in steps]])
+        sk = json.dumps([scripts, mx, sh, [list(s[:2]) for s in steps]])
         if sk in seen:
             continue
         seen.add(sk)
-        res = W.run_schedule(scripts, mx, steps)
+        res = W.run_schedule(scripts, mx, steps, sh)
         solo = {}
         for c, sc in scripts.items():
-            k2 = (c, tuple(sc))
+            k2 = (c, tuple(sc), c in sh)
             if k2 not in solo_cache:
-                solo_cache[k2] = W.run_solo(c, sc)
+                solo_cache[k2] = W.run_solo(c, sc, c in sh)
             solo[c] = solo_cache[k2]
         accepted = sum(1 for e in res["mon"] if e["e"] == "ServeBegin")
         ctx.case([scripts, mx, [(t["k"], t["c"]) for t in res["trace"]]], nontrivial=accepted >= 2,
@@ -202,11 +233,11 @@ def run(ctx: Ctx) -> None:
                  if pi % 53 == 0 else None)
         if res["drift"]:
             ctx.drift.append({"scripts": scripts, "mx": mx, "drift": res["drift"]})
-        runs.append({"scripts": scripts, "mx": mx, "steps": [list(s[:3]) for s in steps], "res": res, "solo": solo})
+        runs.append({"scripts": scripts, "mx": mx, "sh": sh, "steps": [list(s[:3]) for s in steps], "res": res, "solo": solo})
 
     # ---- (3) code -> spec
     n_of = lambda r: len(r["scripts"])  # noqa: E731
-    traces = [{"s": [r["scripts"][c] for c in sorted(r["scripts"])], "mx": r["mx"], "ev": r["res"]["trace"],
+    traces = [{"s": [r["scripts"][c] for c in sorted(r["scripts"])], "mx": r["mx"], "sh": r["sh"], "ev": r["res"]["trace"],
                "obs": [[[k, v] for k, _t, v in r["res"]["obs"][c]] for c in sorted(r["scripts"])]} for r in runs]
     kw = _wrapper(wd, "T_Conn", "ConnIsoTrace", "{}")
     vs = tracecheck.validate(ctx, wd, "T_Conn", traces, constants={"SharedState": False}, name="ConnIsoTrace", **kw)
@@ -220,6 +251,9 @@ def run(ctx: Ctx) -> None:
             ctx.drift.append({"scripts": r["scripts"], "mx": r["mx"], "trace_rejected_at": v["matched"], "bad": v["bad"],
                               "event": tr[v["matched"]] if v["matched"] < len(tr) else None})
     ctx.extra["step_traces_total"] = len(traces)
+    ctx.extra["schedules_with_client_owned_segments"] = sum(bool(r["sh"]) for r in runs)
+    ctx.extra["stream_batches_delivered_through_client_segments"] = sum(r["res"]["via_shm"] for r in runs)
+    ctx.extra["schedules_with_abnormal_connection_end"] = sum(any("g" in s for s in r["scripts"].values()) for r in runs)
     ctx.extra["step_traces_accepted_by_ConnIsoTrace"] = ok
     observations = []
     for r in runs:
@@ -244,12 +278,12 @@ def run(ctx: Ctx) -> None:
             continue
         r = runs[i]
         res = r["res"]
-        det = {"scripts": r["scripts"], "max_connections": r["mx"] or None, "schedule": r["steps"],
+        det = {"scripts": r["scripts"], "max_connections": r["mx"] or None, "connections_with_own_shm_segment": r["sh"], "schedule": r["steps"],
                "executed": res["trace"], "history": res["mon"], "observed": res["obs"], "solo": r["solo"],
                "client_errors": res["client_errors"], "thread_errors": res["thread_errors"], "hang": res["hang"],
                "stuck": res["stuck"], "tlc_trace": r.get("tlc")}
         for c in clauses:
-            ctx.violation(c, {"entry": "serve_unix", "max_connections": r["mx"] or None, "connections": n_of(r),
+            ctx.violation(c, {"entry": "serve_unix", "max_connections": r["mx"] or None, "connections": n_of(r), "own_segment": r["sh"],
                               "ops": sorted({op for s in r["scripts"].values() for op in s})}, det)
     ctx.traces_validated = ok
     ctx.assume("interleavings are explored at park-point granularity (threading primitives of _transport, blocking "
